@@ -342,6 +342,11 @@ class _FragGen:
                 if r.random() < 0.3:
                     fs.append(["i", -1])          # ... and an integer minus one behind it
                 num = ["n", "Sum", [["t", [e(d + 1), ["n", "Product", [["t", fs]]]]]]]
+            elif how < 0.58:
+                # a ternary whose condition is a literal: its type is still that of both branches
+                branches = [e(d + 1), ["f", r.choice(["2.5", "0.5", "1.0"])]]
+                r.shuffle(branches)
+                num = ["n", "If", [["i", r.choice([0, 1])]] + branches]
             elif how < 0.65:
                 # indicators: floating only through the literals 1.0 / 0.0 in their branches
                 num = self.indicator(d) if r.random() < 0.5 else \
